@@ -28,7 +28,12 @@ R = Run('tomof(maxline)->compile_string round trip: 13 value types + reference +
         '27 flavor combinations; strings a^k+special+b^m with k swept over the first and second fold position for 16 '
         'special contents x 10 carriers x maxline in {40,41,80,120} (thorough: 11 values 40..120), blank separated '
         'words (seeded), total lengths 0..200; hand written literals: all sequences <= 2 (thorough <= 3) over 24 '
-        'DSP0004 escape tokens split into 1..2 adjacent literals')
+        'DSP0004 escape tokens split into 1..2 adjacent literals; instances against classes with non-NULL property '
+        'defaults: 13 value types + reference + embedded instance + embedded object x scalar/array/sized array x class '
+        'default in {NULL, truthy, falsy, empty array} x instance value in {NULL, falsy, empty array, = default, != '
+        'default, array with NULL items, longer array}, with an unmentioned defaulted class property; instances '
+        'mentioning subsets (each single property x mode, all, seeded random subsets; thorough: all-but-one) of a '
+        'subclass whose own and inherited properties all declare defaults')
 
 NS = 'ns'
 CONN = MOFWBEMConnection()
@@ -426,7 +431,9 @@ FOUND = {}
 KNOWN_ORDER = ['known:escaped-apostrophe-dropped', 'known:fold-splits-escape-sequence',
                'known:char16-literal-keeps-quotes-and-escapes', 'known:real-without-fraction-digits-rejected',
                'known:short-hex-escape-at-end-of-literal-IndexError', 'known:qualifier-null-value-replaced-by-default',
-               'known:non-ascii-identifier-rejected', 'known:qualifier-value-flavors-not-emitted']
+               'known:non-ascii-identifier-rejected', 'known:qualifier-value-flavors-not-emitted',
+               'known:embedded-property-null-or-empty-array-keeps-class-default',
+               'known:embedded-array-null-element-lost']
 
 
 def report(vid, **detail):
@@ -490,6 +497,57 @@ def non_ascii_ident_at(exc, text):
     return any(ord(ch) > 127 for ch in outside)
 
 
+WHAT_EMB_DEFAULT = ('p_instanceDeclaration sets the value of an EmbeddedInstance/EmbeddedObject property only if the '
+                    'parsed value is truthy, otherwise the copy of the class property keeps its default: with a class C1 '
+                    'whose property [EmbeddedInstance("C_T")] string E has the MOF text of an instance of C_T as default '
+                    'value, "instance of C1 { E = NULL; };" compiles to an instance whose E is that default string '
+                    'instead of NULL; with [EmbeddedInstance("C_T")] string EA[] without default, "instance of C1 { EA = '
+                    '{ }; };" compiles to EA = NULL instead of an empty array')
+WHAT_EMB_NULL_ITEM = ('p_instanceDeclaration hands the NULL elements of an embedded instance array to the PLY parser as if '
+                      'they were MOF text: CIMInstance.tomof() writes EA = { "instance of C_T {...};", NULL }; for the '
+                      'value [inst, None] and the compiled array is [inst] (one element instead of two); EA = { NULL }; '
+                      'ends in RuntimeError("No input string given with input()") instead of the array [None]')
+IPROP_PATH_RE = re.compile(r'instance/property:([^/]+)/value$')
+
+
+def embedded_kept_class_default(d, obj):
+    """The diff `d` is: the instance gave NULL or an empty array to an embedded instance/object property and the
+    compiled property holds exactly what the class property declares as its default (NULL if it declares none)."""
+    m = IPROP_PATH_RE.match(d[0])
+    if not m or d[1] not in ('null-mismatch', 'array-length-differs', 'array-shape-differs'):
+        return False
+    try:
+        op = obj.properties[m.group(1)]
+        cp = CONN.classes[NS][obj.classname].properties[m.group(1)]
+    except KeyError:
+        return False
+    if 'EmbeddedInstance' not in cp.qualifiers and 'EmbeddedObject' not in cp.qualifiers:
+        return False
+    if not (op.value is None or (isinstance(op.value, list) and not op.value)):
+        return False
+    try:
+        return type(d[3]) is type(cp.value) and d[3] == cp.value
+    except TypeError:  # pywbem's __eq__ on CIM objects refuses other types
+        return False
+
+
+def embedded_null_items_dropped(d, obj):
+    """The diff `d` is: an embedded instance array with NULL elements arrived without them, otherwise intact."""
+    m = IPROP_PATH_RE.match(d[0])
+    if not m or d[1] != 'array-length-differs':
+        return False
+    try:
+        op = obj.properties[m.group(1)]
+    except KeyError:
+        return False
+    if not (op.embedded_object and isinstance(op.value, list) and any(x is None for x in op.value) and
+            isinstance(d[3], list)):
+        return False
+    out = []
+    d_value([x for x in op.value if x is not None], d[3], 'string', 'x', out, Norm())
+    return not out
+
+
 def roundtrip(kind, obj, deps, maxline, fetch, feats=(), **desc):
     """deps: MOF texts compiled before (themselves tomof() output of helper objects, default maxline)."""
     desc = dict(desc, kind=kind, maxline=maxline, object=short(obj, 1500))
@@ -526,6 +584,10 @@ def roundtrip(kind, obj, deps, maxline, fetch, feats=(), **desc):
         elif isinstance(e, MOFParseError) and 'embedded-apos' in feats and apostrophe_model(text)[0] == 'reject':
             # the outer literal loses the apostrophe of \\\' and leaves an unknown escape in the embedded MOF
             report('known:escaped-apostrophe-dropped', error=short(str(e), 200), where='embedded instance', **desc)
+        elif isinstance(e, RuntimeError) and 'embedded-array-null-first' in feats and 'No input string' in str(e):
+            # the NULL element is handed to the PLY parser as MOF text of an embedded instance
+            report('known:embedded-array-null-element-lost', what=WHAT_EMB_NULL_ITEM,
+                   error=et + ': ' + short(str(e), 200), **desc)
         else:
             report('compile-rejects-tomof-output-' + et, error=short(str(e), 300), **desc)
         return
@@ -557,6 +619,20 @@ def roundtrip(kind, obj, deps, maxline, fetch, feats=(), **desc):
                                          '/qualifier:' in d[0])]
         if len(rest2) < len(rest):
             report('known:qualifier-null-value-replaced-by-default', diff=short(rest[0]), **desc)
+            rest = rest2
+    if rest and 'embedded-falsy' in feats:
+        rest2 = [d for d in rest if not embedded_kept_class_default(d, obj)]
+        if len(rest2) < len(rest):
+            gone = [d for d in rest if d not in rest2][0]
+            report('known:embedded-property-null-or-empty-array-keeps-class-default', what=WHAT_EMB_DEFAULT,
+                   property=gone[0], original=short(gone[2]), compiled=short(gone[3]), **desc)
+            rest = rest2
+    if rest and 'embedded-array-null' in feats:
+        rest2 = [d for d in rest if not embedded_null_items_dropped(d, obj)]
+        if len(rest2) < len(rest):
+            gone = [d for d in rest if d not in rest2][0]
+            report('known:embedded-array-null-element-lost', what=WHAT_EMB_NULL_ITEM, property=gone[0],
+                   original=short(gone[2]), compiled=short(gone[3]), **desc)
             rest = rest2
     if rest and 'qualifier-flavors' in feats:
         rest2 = [d for d in rest if not (d[1].startswith('flavor-') and '/qualifier:' in d[0])]
@@ -1018,8 +1094,222 @@ def structure_cases(maxlines, quick):
                       section='instance-structure', shape=tag)
 
 
+# ---- instances against classes whose properties declare non-NULL defaults -----------------------------------------
+# The compiler builds each instance property from a copy of the class property, so the class's default value, its
+# array-ness/array size, its embedded object qualifiers and the class properties the instance does not mention could
+# all leak into the compiled instance.  Model of the documented behaviour: MOFCompiler + MOFWBEMConnection store the
+# instance exactly as written - the properties the MOF mentions, with the values it gives (NULL is a value); class
+# defaults are not filled in for properties the instance does not mention (nothing in the compiler documentation
+# promises that, CreateInstance of MOFWBEMConnection appends the instance as it is).
+DTYPES = VALUE_TYPES + ['reference', 'embinst', 'embobj']
+KEY_DECL = qdecl('Key', 'boolean', False, scopes={'PROPERTY': True, 'REFERENCE': True}, overridable=False,
+                 tosubclass=True)
+
+
+def emb_t(k, n):
+    return CIMInstance('C_T', properties=[CIMProperty('K', k, type='string'), CIMProperty('N', n, type='uint8')])
+
+
+def dv_samples(t):
+    """(falsy value or None if the type has none, value a, value b) - a is truthy, b differs from a (and is truthy
+    too, except for boolean)."""
+    if t in INT_TYPES:
+        cls = INT_TYPES[t]
+        return cls(0), cls(cls.maxvalue), cls(cls.minvalue if cls.minvalue < 0 else 1)
+    if t in REAL_TYPES:
+        return REAL_TYPES[t](0.0), REAL_TYPES[t](1.5), REAL_TYPES[t](-2.25)
+    if t == 'boolean':
+        return False, True, False
+    if t == 'string':
+        return '', 'dflt', 'other "value"'
+    if t == 'char16':
+        return None, 'a', 'Z'
+    if t == 'datetime':
+        return CIMDateTime('00000000000000.000000:000'), CIMDateTime(DT_SAMPLES[0]), CIMDateTime(DT_SAMPLES[1])
+    if t == 'reference':
+        return None, CIMInstanceName('C_T', keybindings=[('K', 'k1')]), \
+            CIMInstanceName('C_T', keybindings=[('K', 'k 2'), ('N', 5)], namespace='root/x', host='h.example:5988')
+    if t in ('embinst', 'embobj'):
+        return None, emb_t('dk', Uint8(3)), emb_t('other', None)
+    raise AssertionError(t)
+
+
+def dprop(name, t, value, arr=False, size=None, in_class=False, quals=()):
+    quals = list(quals)
+    if t in ('embinst', 'embobj'):
+        if in_class:
+            quals.append(qval(EMB_DECL, 'C_T') if t == 'embinst' else qval(EMO_DECL, True))
+        return CIMProperty(name, value, type='string', is_array=arr, array_size=size,
+                           embedded_object='instance' if t == 'embinst' else 'object', qualifiers=quals)
+    return CIMProperty(name, value, type=t, is_array=arr, array_size=size,
+                       reference_class='C_T' if t == 'reference' else None, qualifiers=quals)
+
+
+def uniq(vals):
+    seen, out = set(), []
+    for tag, v in vals:
+        r = repr(v)
+        if r not in seen:
+            seen.add(r)
+            out.append((tag, v))
+    return out
+
+
+def default_choices(t, shape):
+    z, a, b2 = dv_samples(t)
+    if shape == 'scalar':
+        c = [('null', None), ('a', a)] + ([('falsy', z)] if z is not None else [])
+    elif shape == 'array':
+        c = [('null', None), ('ab', [a, b2]), ('empty', [])] + ([('falsy', [z])] if z is not None else [])
+    else:
+        c = [('null', None), ('aba', [a, b2, a])]
+    return uniq(c)
+
+
+def value_choices(t, shape):
+    z, a, b2 = dv_samples(t)
+    if shape == 'scalar':
+        c = [('null', None), ('falsy', z), ('a', a), ('b', b2)]
+    elif shape == 'array':
+        c = [('null', None), ('empty', []), ('falsy', None if z is None else [z]), ('ab', [a, b2]), ('b', [b2]),
+             ('a-null-b', [a, None, b2]), ('only-null', [None]), ('null-a', [None, a]), ('ababa', [a, b2, a, b2, a])]
+    else:
+        c = [('null', None), ('aba', [a, b2, a]), ('falsy', None if z is None else [z, z, z]),
+             ('b-null-a', [b2, None, a])]
+    return uniq(c)
+
+
+def emb_feats(props):
+    """What is known to go wrong for this instance (decided from the input alone)."""
+    feats = set()
+    for p in props:
+        if not p.embedded_object:
+            continue
+        if p.value is None or (isinstance(p.value, list) and not p.value):
+            feats.add('embedded-falsy')
+        if isinstance(p.value, list) and any(x is None for x in p.value):
+            feats.add('embedded-array-null')
+            if p.value[0] is None:
+                feats.add('embedded-array-null-first')
+    return sorted(feats)
+
+
+def instance_default_matrix(maxlines, quick):
+    """One property at a time: type x shape x class default x instance value; the class has a second property of the
+    same kind with a non-NULL default that the instance does not mention."""
+    base = [EMB_MOF, TGT_MOF]
+    for t in DTYPES:
+        for shape in ('scalar', 'array', 'sized'):
+            if t == 'reference' and shape != 'scalar':
+                continue  # CIM has no arrays of references in properties
+            arr = shape != 'scalar'
+            size = 3 if shape == 'sized' else None
+            a = dv_samples(t)[1]
+            for dtag, dflt in default_choices(t, shape):
+                cls = CIMClass('C1', properties=[dprop('P1', t, dflt, arr, size, in_class=True),
+                                                 dprop('Unm', t, [a] if arr else a, arr, None, in_class=True)])
+                deps = base + [cls.tomof()]
+                for vtag, val in value_choices(t, shape):
+                    props = [dprop('P1', t, val, arr)]
+                    for ml in maxlines:
+                        R.case(('inst-default', t, shape, dtag, vtag, ml))
+                        roundtrip('instance', CIMInstance('C1', properties=props), deps, ml, fetch_inst(),
+                                  emb_feats(props), section='instance-vs-class-default', type=t, shape=shape,
+                                  class_default=dtag + ': ' + short(dflt, 200), instance_value=vtag)
+
+
+SCALAR_MODES = ['null', 'falsy', 'same', 'diff']
+ARRAY_MODES = ['null', 'empty', 'falsy', 'same', 'diff', 'with-null']
+
+
+def mode_value(t, arr, mode, dflt):
+    """Instance value for one property of the all-defaults class; None if the type has no such value."""
+    z, a, b = dv_samples(t)
+    if mode == 'null':
+        return True, None
+    if mode == 'same':
+        return True, (list(dflt) if arr else dflt)
+    if not arr:
+        if mode == 'falsy':
+            return z is not None, z
+        cand = [v for v in (b, a) if not (type(v) is type(dflt) and v == dflt)]
+        return True, cand[0]
+    if mode == 'empty':
+        return True, []
+    if mode == 'falsy':
+        return z is not None, [z]
+    if mode == 'diff':
+        return True, ([a] if len(dflt) != 1 else [a, a])
+    if mode == 'with-null':
+        return True, [a, None, b]
+    raise AssertionError(mode)
+
+
+def instance_subset_cases(maxlines, quick, rnd):
+    """A class (with a superclass) whose properties all declare non-NULL defaults - every type, scalar and array,
+    truthy and falsy defaults, an overridden inherited default, a key; instances mention subsets of them."""
+    sup = CIMClass('C_SupD', properties=[
+        CIMProperty('Id', 'id0', type='string', qualifiers=[qval(KEY_DECL, True)]),
+        CIMProperty('InhU', Uint16(9), type='uint16'), CIMProperty('Ovr', 'sup-default', type='string'),
+        CIMProperty('InhA', [Sint8(-1), Sint8(0)], type='sint8', is_array=True),
+        CIMProperty('InhZ', Uint32(0), type='uint32')])
+    specs = [('Id', 'string', False, 'id0'), ('InhU', 'uint16', False, Uint16(9)), ('Ovr', 'string', False, 'sub-default'),
+             ('InhA', 'sint8', True, [Sint8(-1), Sint8(0)]), ('InhZ', 'uint32', False, Uint32(0))]
+    own = [CIMProperty('Ovr', 'sub-default', type='string')]
+    for t in DTYPES:
+        z, a, b = dv_samples(t)
+        new = [(t + '_s', t, False, a)]
+        if z is not None:
+            new.append((t + '_z', t, False, z))
+        if t != 'reference':
+            new.append((t + '_a', t, True, [a, b]))
+            new.append((t + '_e', t, True, []))
+            if z is not None:
+                new.append((t + '_za', t, True, [z]))
+        for n, t_, arr, dflt in new:
+            own.append(dprop(n, t_, dflt, arr, None, in_class=True))
+        specs += new
+    cls = CIMClass('C1', superclass='C_SupD', properties=own)
+    deps = [KEY_DECL.tomof() + EMB_MOF, TGT_MOF, sup.tomof(), cls.tomof()]
+
+    def build(sel):
+        props = []
+        for (n, t, arr, dflt), mode in sel:
+            ok, v = mode_value(t, arr, mode, dflt)
+            if not ok or (n == 'Id' and v is None):  # a key is never NULL
+                continue
+            props.append(dprop(n, t, v, arr))
+        return props
+
+    def run(tag, props, ml):
+        if not props:
+            return
+        R.case(('inst-subset', tag, ml))
+        roundtrip('instance', CIMInstance('C1', properties=props), deps, ml, fetch_inst(), emb_feats(props),
+                  section='instance-subset-of-class-with-defaults', shape=str(tag),
+                  mentioned=[p.name for p in props], class_properties=len(specs))
+
+    ml0 = maxlines[0]
+    for sp in specs:
+        for mode in (ARRAY_MODES if sp[2] else SCALAR_MODES):
+            for ml in (maxlines if not quick else [ml0]):
+                run(('single', sp[0], mode), build([(sp, mode)]), ml)
+    for mode in ARRAY_MODES:
+        for ml in maxlines:
+            run(('all', mode), build([(sp, mode if sp[2] or mode in SCALAR_MODES else 'same') for sp in specs]), ml)
+    if not quick:
+        for i in range(len(specs)):
+            for mode in ('null', 'same', 'falsy'):
+                sel = [(sp, mode if sp[2] or mode in SCALAR_MODES else 'same') for j, sp in enumerate(specs) if j != i]
+                run(('all-but', specs[i][0], mode), build(sel), ml0)
+    for i in range(80 if quick else 3000):
+        k = rnd.choice((1, 2, 3, 5, 8, 13, 21, len(specs)))
+        sel = [(sp, rnd.choice(ARRAY_MODES if sp[2] else SCALAR_MODES)) for sp in rnd.sample(specs, min(k, len(specs)))]
+        run(('random', i, tuple((sp[0], m) for sp, m in sel)), build(sel), rnd.choice(maxlines))
+
+
 # ---- hand written literals against the DSP0004 reference -----------------------------------------------------
-LIT_TOKENS = ['a', '0', 'F', 'g', ' ', "'", '\\\\', '\\"', "\\'", '\\n', '\\t', '\\b', '\\f', '\\r', '\\x1', '\\x41',
+LIT_TOKENS =['a', '0', 'F', 'g', ' ', "'", '\\\\', '\\"', "\\'", '\\n', '\\t', '\\b', '\\f', '\\r', '\\x1', '\\x41',
               '\\X041', '\\x0041', '\\xABCD', '\\xffff', '\\x9', '\\X7e', '\\x00e9', '\xe9']
 
 
@@ -1087,7 +1377,9 @@ def main():
         ml_fold = [40, 41, 80, 120]
         ml_val = [40, 80, 120]
         ml_struct = [40, 57, 80, 120]
+        ml_inst = [None]
     else:
+        ml_inst = [None, 40, 64, 120]
         ml_fold = [40, 41, 42, 43, 59, 60, 79, 80, 81, 119, 120]
         ml_val = [40, 41, 47, 64, 80, 99, 120, 1000]
         ml_struct = list(range(40, 121, 4)) + [200]
@@ -1095,6 +1387,8 @@ def main():
     null_qualifier_cases()
     scope_flavor_cases(quick, rnd)
     structure_cases(ml_struct, quick)
+    instance_default_matrix(ml_inst, quick)
+    instance_subset_cases(ml_inst, quick, rnd)
     literal_cases(quick, rnd)
     word_strings(ml_fold, quick, rnd)
     fold_sweep(ml_fold, quick, rnd)
